@@ -17,7 +17,7 @@ import numpy as np
 
 from .. import taps, gen
 from ..ctx import Skip, digest
-from ..snap import snap, is_obs, obs_digest
+from ..snap import snap, is_obs, obs_digest, any_digest
 from ..compare import compare_obs
 from ..ref import dense
 from ..ref import rootint as ri
@@ -209,6 +209,8 @@ def lib_residual(name, c):
         return lambda x, d: d[0] * x + d[1] - d[2]
     if name == 'vec_cubic':
         return lambda x, d: x ** 3 + d[0] * x - d[1]
+    if name == 'vec_many':
+        return lambda x, d: d[0] * x + sum(ri.MANY_WEIGHTS[k_] * d[k_] for k_ in range(1, ri.MANY_N))
     raise ValueError(name)
 
 
@@ -235,6 +237,8 @@ def explicit_inverse(name, c, d):
         return (d[2] - d[1]) / d[0]
     if name == 'vec_cubic':
         return cardano(d[0], d[1])
+    if name == 'vec_many':
+        return -sum(ri.MANY_WEIGHTS[k_] * d[k_] for k_ in range(1, ri.MANY_N)) / d[0]
     raise ValueError(name)
 
 
@@ -259,6 +263,8 @@ def root_problem(rng, name):
         return {}, [(sgn * float(rng.uniform(0.6, 2.0)), 0.8), (float(rng.uniform(-2, 2)), 1.0), (float(rng.uniform(-2, 2)), 1.0)]
     if name == 'vec_cubic':
         return {}, [(float(rng.uniform(0.4, 2.0)), 0.5), (sgn * float(rng.uniform(0.5, 3.0)), 1.0)]
+    if name == 'vec_many':
+        return {}, [(sgn * float(rng.uniform(0.6, 2.0)), 0.8)] + [(float(rng.uniform(-2, 2)), 1.0) for _ in range(ri.MANY_N - 1)]
     raise ValueError(name)
 
 
@@ -326,7 +332,10 @@ def case_root(ctx, rng, name, layout, repeat=None):
         form = str(rng.choice(['list', 'array']))
         arg = list(d) if form == 'list' else np.array(d)
     ctx.cell('find_root', name, 'vector' if nd > 1 else 'scalar', layout, form)
+    before = any_digest(arg)
     got = pe.roots.find_root(arg, func, guess=guess) if rng.random() < 0.8 else pe.roots.find_root(arg, func, guess)
+    if any_digest(arg) != before:
+        ctx.count('arguments_modified_by_call:find_root')
     ctx.count('roots_judged')
     mech = 'find_root:%s-d' % ('vector' if nd > 1 else 'scalar')
     what = '%s %r layout=%s form=%s' % (name, c, layout, form)
@@ -371,7 +380,7 @@ def case_root(ctx, rng, name, layout, repeat=None):
     moving = any(np.any(s['chains'][cn][1] != 0) for s in snaps for cn in s['chains']) or any(s['cov'] for s in snaps)
     if moving:
         ctx.nontrivial.add(digest('root', name, sorted(c.items()), dv, [sorted(s['chains']) for s in snaps]))
-    if rng.random() < 0.15:
+    if rng.random() < 0.3:
         decoy = [(-0.5 * x + 1.5 * x.value) if k_ == len(d) - 1 else x for k_, x in enumerate(d)]      # same names / lists / values, other data
         pe.roots.find_root(decoy[0] if (nd == 1 and form == 'Obs') else (list(decoy) if form != 'array' else np.array(decoy)), func, guess=guess)
         again = pe.roots.find_root(arg, func, guess=guess)
@@ -447,7 +456,7 @@ def integral_problem(rng, name, half_line=False):
 PSEL = ['none', 'some', 'all']
 
 
-def case_quad(ctx, rng, name, psel, a_obs, b_obs, layout, half_line=False, weight=None, repeat=None):
+def case_quad(ctx, rng, name, psel, a_obs, b_obs, layout, half_line=False, weight=None, repeat=None, spectator=None, force_kw=None):
     import scipy.integrate
     pe = PE
     npar, p, a, b, c = integral_problem(rng, name, half_line)
@@ -526,16 +535,37 @@ def case_quad(ctx, rng, name, psel, a_obs, b_obs, layout, half_line=False, weigh
         kw = {'points': [lo + 0.37 * (hi - lo), lo + 0.81 * (hi - lo)][:int(rng.integers(1, 3))]}
     elif r < 0.65:
         kw = {'epsabs': 1e-11, 'epsrel': 1e-11, 'limit': 60}
+    if force_kw is not None:
+        kw = dict(force_kw)
+        if kw.get('points') == 'auto':
+            kw['points'] = [min(av, bv) + 0.41 * abs(bv - av)]
     if weight is not None:
         kw = dict(kw, weight=weight, wvar=wvar)
         kw.pop('points', None)
-    parg = pin if rng.random() < 0.7 else (np.array(pin, dtype=object) if any(mask) else np.array(pin))
-    nobs = sum(mask) + int(a_obs) + int(b_obs)
+    # spectator: a parameter the integrand does not use, in the first or the last slot (derivative exactly zero)
+    func_lib, pin_lib, sp = func, list(pin), None
+    if spectator is not None:
+        sp = ops.obs(float(rng.uniform(-2, 2)), 1.0) if rng.random() < 0.7 else float(rng.uniform(-2, 2))
+        if spectator == 'first':
+            pin_lib = [sp] + list(pin)
+            func_lib = lambda p_, x_, _f=func: _f(p_[1:], x_)
+        else:
+            pin_lib = list(pin) + [sp]
+            func_lib = lambda p_, x_, _f=func: _f(p_[:-1], x_)
+        ctx.cell('quad_spectator', name, spectator, 'Obs' if is_obs(sp) else 'number')
+        ctx.count('spectator_cases')
+    sp_obs = is_obs(sp)
+    any_obs_p = any(is_obs(x) for x in pin_lib)
+    parg = pin_lib if rng.random() < 0.7 else (np.array(pin_lib, dtype=object) if any_obs_p else np.array(pin_lib))
+    nobs = sum(mask) + int(a_obs) + int(b_obs) + int(sp_obs)
     ctx.cell('quad', name + ('_half_line' if half_line else '') + ('_weight_' + weight if weight else ''), 'p_' + psel, 'a_obs' if a_obs else 'a_num', 'b_obs' if b_obs else 'b_num',
              layout if nobs else 'numbers')
     for k_ in sorted(kw):
         ctx.cell('quad_option', k_)
-    got = pe.integrate.quad(func, parg, ain, bin_, **kw)
+    before = any_digest([parg, ain, bin_])
+    got = pe.integrate.quad(func_lib, parg, ain, bin_, **kw)
+    if any_digest([parg, ain, bin_]) != before:
+        ctx.count('arguments_modified_by_call:quad')
     what = '%s p=%r a=%r b=%r mask=%r a_obs=%r b_obs=%r layout=%s kw=%r' % (name, pv, av, bv, mask, a_obs, b_obs, layout, sorted(kw))
     direct = scipy.integrate.quad(lambda x: func(np.array(pv), x), av, bv, **kw)
     if nobs == 0:
@@ -565,14 +595,19 @@ def case_quad(ctx, rng, name, psel, a_obs, b_obs, layout, half_line=False, weigh
     if not ctx.require(is_obs(res), mech + ':first-element-not-Obs', {'type': type(res).__name__}):
         return
     ctx.equal(got[1], direct[1], mech + ':abserr-differs-from-scipy', what)
-    ins = [x for x in pin if is_obs(x)] + ([ain] if a_obs else []) + ([bin_] if b_obs else [])
+    ins = [x for x in pin_lib if is_obs(x)] + ([ain] if a_obs else []) + ([bin_] if b_obs else [])
     if weight is None:
         grads = ri.gradient(name, pv, av, bv, c, mask, a_obs, b_obs)
     else:
         grads = ri.weighted_gradient(name, pv, av, bv, c, mask, a_obs, b_obs, weight, wvar)
 
+    if sp_obs:
+        grads = ([0.0] + list(grads)) if spectator == 'first' else (list(grads[:sum(mask)]) + [0.0] + list(grads[sum(mask):]))
+
     def val(v):
         vv = list(v)
+        if sp_obs:
+            vv.pop(0 if spectator == 'first' else sum(mask))
         pp = [vv.pop(0) if m else x for x, m in zip(pv, mask)]
         aa = vv.pop(0) if a_obs else av
         bb = vv.pop(0) if b_obs else bv
@@ -590,20 +625,20 @@ def case_quad(ctx, rng, name, psel, a_obs, b_obs, layout, half_line=False, weigh
     named = False
     if not ok:
         hyp = {}
-        if weight is not None:
+        if weight is not None and sp is None:
             # hypotheses that name the cause: parameter terms / limit terms computed without the weight function
             unw = ri.gradient(name, pv, av, bv, c, mask, a_obs, b_obs)
             npo = sum(mask)
             hyp['parameter-terms-ignore-the-weight-options'] = list(unw[:npo]) + list(grads[npo:])
             hyp['limit-terms-ignore-the-weight-function'] = list(grads[:npo]) + list(unw[npo:])
             hyp['parameter-and-limit-terms-ignore-the-weight-options'] = list(unw)
-        if SHARED.get('first_pv') is not None and weight is None and len(SHARED['first_pv']) == len(pv):
+        if SHARED.get('first_pv') is not None and weight is None and sp is None and len(SHARED['first_pv']) == len(pv):
             stale = ri.gradient(name, SHARED['first_pv'], av, bv, c, mask, False, False)
             hyp['parameter-terms-use-the-parameter-values-of-an-earlier-call-with-the-same-function-object'] = list(stale) + list(grads[sum(mask):])
         if len(set(id(x) for x in ins)) < len(ins):
             last = {id(x): k_ for k_, x in enumerate(ins)}
             hyp['derivatives-of-an-observable-in-several-slots-overwritten-instead-of-summed'] = [g_ if last[id(x)] == k_ else 0.0 for k_, (x, g_) in enumerate(zip(ins, grads))]
-        named = diagnose_quad(ctx, res, ins, grads, val, sum(mask), a_obs, b_obs, mech, what, extra=hyp)
+        named = diagnose_quad(ctx, res, ins, grads, val, sum(mask) + int(sp_obs), a_obs, b_obs, mech, what, extra=hyp)
     if named:
         ctx.evaluations += t.evaluations      # the named cause replaces the field-by-field records of the fluctuations
         for v in t.violations:
@@ -613,12 +648,12 @@ def case_quad(ctx, rng, name, psel, a_obs, b_obs, layout, half_line=False, weigh
         ctx.absorb(t)
     if int(a_obs) + int(b_obs) >= 1 or sum(mask) >= 2:
         ctx.nontrivial.add(digest('quad', name, pv, av, bv, mask, a_obs, b_obs, [sorted(s['chains']) + sorted(s['cov']) for s in snaps]))
-    if rng.random() < 0.15 and ins:
+    if rng.random() < 0.3 and ins:
         x0 = ins[-1]
         twin = -0.5 * x0 + 1.5 * x0.value                      # same names / lists / value, other data
         swap = lambda v: twin if v is x0 else v
-        pe.integrate.quad(func, [swap(v) for v in pin], swap(ain), swap(bin_), **kw)
-        again = pe.integrate.quad(func, parg, ain, bin_, **kw)
+        pe.integrate.quad(func_lib, [swap(v) for v in pin_lib], swap(ain), swap(bin_), **kw)
+        again = pe.integrate.quad(func_lib, parg, ain, bin_, **kw)
         ctx.count('histories_judged')
         ctx.require(is_obs(again[0]) and obs_digest(again[0]) == obs_digest(res), 'quad:result-depends-on-call-history', {'what': what})
     if 'quad' in SHARED and SHARED.get('first_pv') is None:
@@ -789,6 +824,12 @@ def plan(tier):
     for which in ('a', 'b', 'ab'):
         p.append(('quadother:%s' % which, 3 * m))
     for name in ri.INTEGRANDS:
+        for pos in ('first', 'last'):
+            p.append(('quadspec:%s:%s' % (name, pos), 9 * m))
+    p.append(('quadmany', 10 * m))
+    for opt in ('full_output', 'limit', 'eps', 'points'):
+        p.append(('quadplain:%s' % opt, 14 * m))
+    for name in ri.INTEGRANDS:
         p.append(('funchist:quad:%s' % name, 12 * m))
     for name in ri.ROOTS:
         p.append(('funchist:root:%s' % name, 4 * m))
@@ -812,6 +853,21 @@ def run_case(ctx, kind, idx, rng):
         case_root(ctx, rng, k[1], k[2])
     elif k[0] == 'quad':
         case_quad(ctx, rng, k[1], k[2], bool(int(k[3])), bool(int(k[4])), k[5])
+    elif k[0] == 'quadspec':
+        case_quad(ctx, rng, k[1], str(rng.choice(PSEL)), bool(rng.integers(0, 2)), bool(rng.integers(0, 2)), str(rng.choice(['same', 'different', 'covariance'])), spectator=k[2])
+    elif k[0] == 'quadmany':
+        # more than ten parameters (numbered by position)
+        try:
+            SHARED['quad'] = (12, {}, lib_integrand('poly', {}, 12))
+            case_quad(ctx, rng, 'poly', str(rng.choice(['some', 'all'])), bool(rng.integers(0, 2)), bool(rng.integers(0, 2)), str(rng.choice(['same', 'different', 'covariance'])))
+            ctx.count('many_parameter_cases')
+        finally:
+            SHARED.clear()
+    elif k[0] == 'quadplain':
+        fam = str(rng.choice(['poly', 'exp', 'trig']))
+        kwf = {'full_output': {'full_output': 1}, 'limit': {'limit': 70, 'full_output': 1}, 'eps': {'epsabs': 1e-10, 'epsrel': 1e-10},
+               'points': {'points': 'auto', 'full_output': 1}}[k[1]]
+        case_quad(ctx, rng, fam, 'none', False, False, 'same', force_kw=kwf)
     elif k[0] == 'funchist':
         case_function_history(ctx, rng, k[1], k[2])
     elif k[0] == 'quadrep':
